@@ -1,5 +1,6 @@
 import Hive.Model.Ads
 import Hive.Model.AdsId
+import Hive.Model.AdsTyped
 /-!
 # Several authenticated maps / sets in one database (C09)
 
@@ -125,34 +126,63 @@ def parseFlavour (tok : String) : Option Codec :=
     | _ => none
   | _ => none
 
-/-- The configuration of an instance: the value decoder sees the payload of the stored value. -/
-def cfgC (cd : Codec) : Cfg R0 :=
-  { rootOf := id
-    dec := fun b =>
-      -- the tag / length byte is missing in the nil slice that `Stream` gets for a raw key without a leaf
-      -- (an instance reopened with un-committed changes): the serializers `p` and `l` refuse it
-      if (cd.val == 'p' || cd.val == 'l') && b.isEmpty then .fail else harnessDec (decWith cd.val b) }
+/-- The key / value serializers of the harness as a `KVCodec` of the typed surface (`Hive/Model/AdsTyped.lean`;
+keys and values of the harness are byte strings): an object whose first byte is `0xEE` does not encode; a key whose
+first byte is `0xBD` does not decode from its stored form; a value whose
+payload starts with `0xDD` does not decode, with `0xCC` it decodes consuming all but one byte; the tag / length byte is
+missing in the nil slice that `Stream` gets for a raw key without a leaf (an instance reopened with un-committed
+changes): the serializers `p` and `l` refuse it. -/
+def codecOf (cd : Codec) : KVCodec (List UInt8) (List UInt8) :=
+  { kenc := fun kb => (encArg kb).map (encWith cd.key tagKey)
+    kdec := fun raw =>
+      -- a key whose first byte is `0xBD` encodes, but its stored form does not decode (`Stream` ends there)
+      let p := decWith cd.key raw
+      match p with
+      | x :: _ => if x.toNat = 0xBD then none else some p
+      | [] => some p
+    venc := fun vb => (encArg vb).map (encWith cd.val tagVal)
+    vdec := fun b =>
+      if (cd.val == 'p' || cd.val == 'l') && b.isEmpty then none else
+      let p := decWith cd.val b
+      match harnessDec p with
+      | .fail => none
+      | .short => some (p, b.length - 1)
+      | .ok => some (p, b.length) }
 
-def encKeyC (cd : Codec) (kb : List UInt8) : Option Key := (encArg kb).map (encWith cd.key tagKey)
-def encValC (cd : Codec) (vb : List UInt8) : Option Val := (encArg vb).map (encWith cd.val tagVal)
+/-- The configuration of an instance: `Get`'s view of the value decoder. -/
+def cfgC (cd : Codec) : Cfg R0 := { rootOf := id, dec := (codecOf cd).dec }
 
-def parseOpC (cd : Codec) : List String → Option Op
+abbrev TyOp0 := TyOp (List UInt8) (List UInt8)
+
+/-- Requests on the typed surface (`add k` of the set flavour is `Set(k, types.Void)`). -/
+def parseTyOp : List String → Option TyOp0
   | ["set", k, v] => do
       let kb ← unhex k
       let vb ← parseVal v
-      pure (.set (encKeyC cd kb) (encValC cd vb))
-  | ["add", k] => do
-      let kb ← unhex k
-      pure (.set (encKeyC cd kb) (some []))
-  | ["get", k] => (unhex k).map (fun kb => .get (encKeyC cd kb))
-  | ["has", k] => (unhex k).map (fun kb => .has (encKeyC cd kb))
-  | ["del", k] => (unhex k).map (fun kb => .del (encKeyC cd kb))
-  | toks => parseOp toks
+      pure (.set kb vb)
+  | ["add", k] => (unhex k).map (fun kb => .set kb [])
+  | ["get", k] => (unhex k).map .get
+  | ["has", k] => (unhex k).map .has
+  | ["del", k] => (unhex k).map .del
+  | ["size"] => some .size
+  | ["stream", n] => n.toNat?.map .stream
+  | ["commit"] => some .commit
+  | ["root"] => some .root
+  | ["restored"] => some .restored
+  | ["reopen"] => some .reopen
+  | _ => none
 
-def showOutC (cd : Codec) : Out R0 → String
-  | .found v => "found " ++ hex (decWith cd.val v)
-  | .streamed ps e => showOut (.streamed (ps.map fun p => (decWith cd.key p.1, decWith cd.val p.2)) e)
-  | o => showOut o
+def showTyEnd : TyStreamEnd → String
+  | .ok => "ok"
+  | .errCb => "err-cb"
+  | .errDec => "err-dec"
+  | .errKeyDec => "err-keydec"
+  | .errKeyEnc => "err-keyenc"
+
+def showTyOut : TyOut (List UInt8) (List UInt8) R0 → String
+  | .out o => showOut o
+  | .found v => "found " ++ hex v
+  | .streamed ps e => "stream " ++ showKV ps ++ " " ++ showTyEnd e
 
 structure RInst where
   db : Nat
@@ -204,6 +234,19 @@ def stepAtI (c : Cfg R0) (mode : Nat) (db : DB R0) (r : Realm) (mem : KV) (op : 
   let (st', o) := istep c (idCodecOf mode) (fun _ _ => true) { s := s, cell := s.rootKey, dangling := none } op
   (store layout db r { st'.s with rootKey := st'.cell }, st'.s.trie.mem, o)
 
+/-- One call on the typed surface of instance `x`: the typed request is encoded (`encOp`), run on the instance with its
+root cell (`stepAtI`), and the answer is read back through the serializers (`tout`, from the state before the call).
+`none`: `Commit` answered "failed to set root". -/
+def tstepAtI (x : RInst) (db : DB R0) (top : TyOp0) : DB R0 × KV × Option (TyOut (List UInt8) (List UInt8) R0) :=
+  let kc := codecOf x.cd
+  let pre := load layout db x.realm x.mem
+  let (db', mem', o) := stepAtI (cfgC x.cd) x.idmode db x.realm x.mem (encOp kc top)
+  (db', mem', match o with | .errSetRoot => none | .out o => some (tout kc pre top o))
+
+def showTy? : Option (TyOut (List UInt8) (List UInt8) R0) → String
+  | none => "err-root"
+  | some o => showTyOut o
+
 /-- `rmw <i> <key> <byte>` — read-modify-write-back: `v := Get(key)`; the first byte of `v` is replaced;
 `Set(key, v)`.  A failed or empty `Get` ends it with `Get`'s answer (`empty` for the empty value). -/
 def rmwLine (ss : Sess) (i : Nat) (x : RInst) (args : List String) : Sess × String :=
@@ -213,15 +256,13 @@ def rmwLine (ss : Sess) (i : Nat) (x : RInst) (args : List String) : Sess × Str
     match unhex k, unhex b with
     | some kb, some [nb] =>
       if nb.toNat ≥ 0x80 then (ss, "bad-op") else
-      let (db₁, mem₁, o₁) := stepAt (cfgC x.cd) layout db x.realm x.mem (.get (encKeyC x.cd kb))
+      let (db₁, mem₁, o₁) := tstepAtI x db (.get kb)
       match o₁ with
-      | .found vb =>
-        match decWith x.cd.val vb with
-        | [] => ((ss.putDb x.db db₁).putInst i { x with mem := mem₁ }, "empty")
-        | _ :: rest =>
-          let (db₂, mem₂, o₂) := stepAt (cfgC x.cd) layout db₁ x.realm mem₁ (.set (encKeyC x.cd kb) (encValC x.cd (nb :: rest)))
-          ((ss.putDb x.db db₂).putInst i { x with mem := mem₂ }, showOutC x.cd o₂)
-      | o => ((ss.putDb x.db db₁).putInst i { x with mem := mem₁ }, showOutC x.cd o)
+      | some (.found []) => ((ss.putDb x.db db₁).putInst i { x with mem := mem₁ }, "empty")
+      | some (.found (_ :: rest)) =>
+        let (db₂, mem₂, o₂) := tstepAtI { x with mem := mem₁ } db₁ (.set kb (nb :: rest))
+        ((ss.putDb x.db db₂).putInst i { x with mem := mem₂ }, showTy? o₂)
+      | o => ((ss.putDb x.db db₁).putInst i { x with mem := mem₁ }, showTy? o)
     | _, _ => (ss, "bad-op")
   | _, _ => (ss, "bad-op")
 
@@ -279,21 +320,20 @@ def stepLine (ss : Sess) (toks : List String) : Sess × String :=
           | ["both"] => (ss.putInst i { x with idmode := 3 }, "ok")
           | _ => (ss, "bad-op")
         else
-        match ss.db x.db, parseOpC x.cd (verb :: args) with
+        match ss.db x.db, parseTyOp (verb :: args) with
         | none, _ => (ss, "nodb")
         | _, none => (ss, "bad-op")
-        | some db, some op =>
-          let (db', mem', o) := stepAtI (cfgC x.cd) x.idmode db x.realm x.mem op
+        | some db, some top =>
+          let (db', mem', o) := tstepAtI x db top
           let hadCell := match db (layout.root x.realm) with | .root _ => true | _ => false
-          let garbage := x.garbage || (op == .reopen && x.idmode / 2 % 2 == 1 && hadCell)
+          let garbage := x.garbage || (verb == "reopen" && x.idmode / 2 % 2 == 1 && hadCell)
           let ss' := (ss.putDb x.db db').putInst i { x with mem := mem', garbage := garbage }
           match o with
-          | .errSetRoot => (ss', "err-root")
-          | .out (.root _) =>
+          | some (.out (.root _)) =>
             -- roots are compared as equality classes: the first point of the session with these contents
             let pts := ss.points ++ [x.mem]
             ({ ss' with points := pts }, s!"class {classOf x.mem pts}")
-          | .out o => (ss', showOutC x.cd o)
+          | o => (ss', showTy? o)
   | _ => (ss, "bad-op")
 
 end Hive.Ads
